@@ -8,6 +8,8 @@ Require Import Verif.Ints.IntsModel Verif.Ints.IntsFold Verif.Ints.IntsProps Ver
 Require Import Verif.Ints.ShapeTypes Verif.Ints.Shape Verif.Gen.IntsShape.
 Require Import Verif.Ints.VModel Verif.Ints.VProps Verif.Ints.VGenProps Verif.Ints.VShapeTypes Verif.Ints.VShape Verif.Gen.IntsViewShape.
 Require Import Verif.Ints.WalkDisc Verif.Ints.WalkDiscProps Verif.Ints.WalkShape.
+Require Verif.Seq.Fmt Verif.Seq.FmtProps.
+Require Import Verif.Ints.CmdModel Verif.Ints.CmdProps Verif.Ints.CmdRun Verif.Ints.CmdShape Verif.Gen.IntsCmdShape.
 Local Open Scope N_scope.
 
 (* ---- termination ---- *)
@@ -347,3 +349,140 @@ Theorem C14_walk_discipline_shape :
   unmark_on_cut_of walk_passthrough = Some false.
 Proof. split; [exact (proj1 (proj2 (proj2 (proj2 source_shape))))|exact shape_walk_discipline]. Qed.
 Print Assumptions C14_walk_discipline_shape.
+
+(* ==================== the command: cmd_ints.go Execute = GenerateIntegrations ; GenerateFromMap (Ints/CmdModel.v) ====
+   Over STRINGS: the --output template is expanded by the model of cmdutils.FormatParser (Seq/Fmt.v, the model of
+   C13), [rx] is Go's regexp (pattern -> does not compile | matcher), an endpoint of the project is [proj_ep] (name,
+   long name, attributes as FmtOutput sees them + its view), [cli] the fields the flags set. *)
+
+(* every diagram of the result belongs to an endpoint of the project whose output name is the key and which passes
+   --filter, and is the diagram that endpoint gets alone under the effective excludes *)
+Theorem C14_cmd_result_sound : forall rx m vi k fuel c eps r out x,
+  gen_integrations rx m vi k fuel c eps = COk r -> sassoc out r = Some x ->
+  exists p, In p eps /\ named rx c p out /\ filter_pass rx c out = Some true /\ x = render_ep m vi k fuel c p.
+Proof. exact gen_integrations_sound. Qed.
+Print Assumptions C14_cmd_result_sound.
+
+(* an endpoint that passes the filter and shares its output name with no endpoint that would get another diagram has
+   its own diagram under that name: no view is dropped because of another *)
+Theorem C14_cmd_result_own : forall rx m vi k fuel c eps l r p out,
+  name_views rx c eps = COk l -> gen_integrations rx m vi k fuel c eps = COk r ->
+  In (p, out, true) l ->
+  (forall p', In (p', out, true) l -> render_ep m vi k fuel c p' = render_ep m vi k fuel c p) ->
+  sassoc out r = Some (render_ep m vi k fuel c p).
+Proof. exact gen_integrations_own. Qed.
+Print Assumptions C14_cmd_result_own.
+
+(* the default command line (-o %(epname).png, no --filter): every endpoint of the project has its own diagram under
+   <endpoint name>.png (PARTIAL: endpoint names are distinct - they are keys of a map - and contain no newline, which
+   Parse would write as the two characters \n; Example default_output_nonvacuous) *)
+Theorem C14_cmd_default_output_own_diagram : forall rx m vi k fuel c eps,
+  c_output c = default_output -> c_filter c = EmptyString ->
+  NoDup (map pe_name eps) -> (forall p, In p eps -> no_newline (pe_name p) = true) ->
+  exists r, gen_integrations rx m vi k fuel c eps = COk r /\
+            forall p, In p eps -> sassoc (pe_name p ++ ".png")%string r = Some (render_ep m vi k fuel c p).
+Proof. exact default_output_own_diagram. Qed.
+Print Assumptions C14_cmd_default_output_own_diagram.
+
+(* the flags reach every view: -e (or, without -e, the project itself) is excluded from every view, and the arrows of
+   every diagram the command writes are backed by calls and touch none of them *)
+Theorem C14_cmd_excludes_reach_every_view : forall c p,
+  (c_exclude c = [] -> c_project c <> EmptyString -> mem (c_proj_id c) (ex_of c p) = true) /\
+  (forall x, In x (c_exclude c) -> mem x (ex_of c p) = true) /\
+  (c_exclude c <> [] -> eff_exclude c = c_exclude c) /\
+  (c_exclude c = [] -> c_project c = EmptyString -> eff_exclude c = []).
+Proof.
+  intros c p. split; [apply project_excluded_by_default|]. split; [apply cli_exclude_reaches_every_view|].
+  split; [apply given_exclude_is_kept|apply no_project_no_default].
+Qed.
+Print Assumptions C14_cmd_excludes_reach_every_view.
+Theorem C14_cmd_component_arrows_sound : forall m vi k fuel c p evs ka kb i,
+  render_ep m vi k fuel c p = Some evs -> is_epa c p = false -> In (EvArrow ka kb i) evs ->
+  exists s a b, build m (pe_listed p) (ex_of c p) (pe_pt p) true true fuel = Ok s /\
+    a <> b /\ (exists sep e, has_call m a sep b e) /\ mem a (ex_of c p) = false /\ mem b (ex_of c p) = false.
+Proof. exact cmd_component_arrows_sound. Qed.
+Print Assumptions C14_cmd_component_arrows_sound.
+Theorem C14_cmd_epa_arrows_sound : forall m vi k fuel c p evs a ma b mb col,
+  render_ep m vi k fuel c p = Some evs -> is_epa c p = true -> In (EvEArrow a ma b mb col) evs ->
+  mem a (ex_of c p) = false /\ mem b (ex_of c p) = false /\ (a = b \/ exists sep e, has_call m a sep b e).
+Proof. exact cmd_epa_arrows_sound. Qed.
+Print Assumptions C14_cmd_epa_arrows_sound.
+
+(* ---- the files: GenerateFromMap visits the result in the order of the Go map ---- *)
+(* every view can be written: every view IS written, whatever the order *)
+Theorem C14_cmd_files_exactly_views : forall ok keys order,
+  Permutation.Permutation order keys -> (forall k, In k keys -> ok k = true) ->
+  write_all ok order = (order, false) /\ Permutation.Permutation (fst (write_all ok order)) keys.
+Proof. exact files_exactly_views. Qed.
+Print Assumptions C14_cmd_files_exactly_views.
+(* a view cannot be written: the command reports an error, whatever the order - never silent *)
+Theorem C14_cmd_failure_not_silent : forall ok keys order,
+  Permutation.Permutation order keys -> (exists k, In k keys /\ ok k = false) -> snd (write_all ok order) = true.
+Proof. exact failure_not_silent. Qed.
+Print Assumptions C14_cmd_failure_not_silent.
+(* and what was written before is made of views that can be written *)
+Theorem C14_cmd_written_are_views : forall ok keys order k,
+  Permutation.Permutation order keys -> In k (fst (write_all ok order)) -> In k keys /\ ok k = true.
+Proof. exact written_are_views. Qed.
+Print Assumptions C14_cmd_written_are_views.
+(* REFUTED: "a failing view does not drop the others" - which good views are written before the error depends on
+   the order of the map (the error is reported either way) *)
+Theorem C14_cmd_good_views_after_error_refuted :
+  exists ok o1 o2 k, Permutation.Permutation o1 o2 /\ ok k = true /\ In k o1 /\
+                     In k (fst (write_all ok o1)) /\ ~ In k (fst (write_all ok o2)) /\
+                     snd (write_all ok o1) = true /\ snd (write_all ok o2) = true.
+Proof. exact good_views_after_error_refuted. Qed.
+Print Assumptions C14_cmd_good_views_after_error_refuted.
+
+(* ---- panics of the command ---- *)
+(* PARTIAL: a template that passes FormatParser.Check and a filter that compiles never panic (Example
+   default_output_nonvacuous); a project without endpoints never does, not even with a filter that does not compile *)
+Theorem C14_cmd_checked_options_never_panic : forall rx c eps,
+  FmtProps.format_ok rx (c_output c) = true -> (c_filter c = EmptyString \/ rx (c_filter c) <> None) ->
+  exists l, name_views rx c eps = COk l.
+Proof. exact checked_options_never_panic. Qed.
+Print Assumptions C14_cmd_checked_options_never_panic.
+Theorem C14_cmd_empty_project_never_panics : forall rx m vi k fuel c, gen_integrations rx m vi k fuel c [] = COk [].
+Proof. exact empty_project_never_panics. Qed.
+Print Assumptions C14_cmd_empty_project_never_panics.
+Theorem C14_cmd_parser_model_total : forall rx c eps, name_views rx c eps <> CPanicked PNever.
+Proof. exact name_views_never_out_of_fuel. Qed.
+Print Assumptions C14_cmd_parser_model_total.
+(* REFUTED in general: `sysl ints -o '%(epname'` and `sysl ints --filter '('` die with a Go panic *)
+Theorem C14_cmd_no_panic_refuted :
+  gen_integrations FmtProps.rx_none [] {| names := []; mixins := []; app_r := []; ep_r := []; pubsub := [] |} true 1 (cli0 "%(epname" "") [one_ep]
+    = CPanicked (PFormat Fmt.UnclosedExpansion) /\
+  gen_integrations FmtProps.rx_none [] {| names := []; mixins := []; app_r := []; ep_r := []; pubsub := [] |} true 1 (cli0 "%(epname).png" "(") [one_ep]
+    = CPanicked PFilter.
+Proof. exact cmd_no_panic_refuted. Qed.
+Print Assumptions C14_cmd_no_panic_refuted.
+
+(* the comparison of the command stream accepts every order of the model's Execute (so a mismatch is a run that NO
+   order explains) *)
+Theorem C14_cmd_every_order_accepted : forall (V:Type) (eqb:V -> V -> bool) ok (r:list (string * V)) d order,
+  (forall x, eqb x x = true) -> Permutation.Permutation order (map fst r) ->
+  let (w, err) := write_all ok order in
+  x_consistent eqb ok r (negb err) (map (fun o => (o, match sassoc o r with Some x => x | None => d end)) w) = true.
+Proof. exact @execute_consistent. Qed.
+Print Assumptions C14_cmd_every_order_accepted.
+
+(* cmd_ints.go, GenerateIntegrations, FmtOutput, GenerateFromMap and OutputPlantuml still read as the model was written *)
+Theorem C14_cmd_source_shape :
+  modes_of_src output_modes = Some mode_table /\
+  output_mode_src = ["mode := path.Ext(output)"; "mode = strings.Replace(mode, ""."", """", 1)"]%string /\
+  from_map = ["for k, v := range m { if err := OutputPlantuml(k, p.Value(), v, fs); err != nil { return err } }"; "return nil"]%string /\
+  nth 2 cmd_execute ""%string = "return p.GenerateFromMap(result, args.Filesystem)"%string /\
+  nth 1 gen_steps ""%string = "if len(intgenParams.Exclude) == 0 && intgenParams.Project != """" { intgenParams.Exclude = []string{intgenParams.Project} }"%string /\
+  nth 5 gen_steps ""%string = "for _, epname := range sortedSlice(app.GetEndpoints())"%string /\
+  nth 7 gen_steps ""%string = "loop: outputDir := of.FmtOutput(intgenParams.Project, epname, endpt.GetLongName(), endpt.GetAttrs())"%string /\
+  nth 8 gen_steps ""%string = "loop: if intgenParams.Filter != """" { re := regexp.MustCompile(intgenParams.Filter) if !re.MatchString(outputDir) { continue } }"%string /\
+  nth 11 gen_steps ""%string = "loop: b := MakeBuilderfromStmt(model, endpt.GetStmt(), excludeStrSet.Union(excludes), passthroughs)"%string /\
+  nth 13 gen_steps ""%string = "loop: args := &Args{intgenParams.Title, intgenParams.Project, intgenParams.Clustered, intgenParams.EPA}"%string /\
+  nth 14 gen_steps ""%string = "loop: r[outputDir] = GenerateView(args, intsParam, model)"%string /\
+  List.length gen_steps = 16%nat /\ List.length cmd_execute = 3%nat /\ List.length fmt_output_src = 3%nat /\
+  map (fun f => (fst (fst (fst f)), snd f)) cmd_flags =
+    [("title", "StringVar &p.Title"); ("output", "StringVar &p.Output"); ("project", "StringVar &p.Project"); ("filter", "StringVar &p.Filter");
+     ("exclude", "StringsVar &p.Exclude"); ("clustered", "BoolVar &p.Clustered"); ("epa", "BoolVar &p.EPA")]%string /\
+  In ("output", "o", default_output, "StringVar &p.Output")%string cmd_flags.
+Proof. exact cmd_source_shape. Qed.
+Print Assumptions C14_cmd_source_shape.
